@@ -58,6 +58,18 @@ CLAIMED["C13"] = dict(
     technique="Lean 4 theorems (stabilise refuses on a poisoned state; status frame through every function; exact characterisation of the status after a panic; reads refuse; poisoned forever) + fault enumeration against the real crate (panic armed at every closure invocation) + Lean predicate",
     text="Kernel-checked for EVERY model state: stabilise on a state whose status is not NotStabilising panics at the status assertion with the state untouched (no user code runs); no function other than stabilise/stabilise_end writes the status (invariant pushed through every function incl. all cascades); a panic out of stabilise leaves Stabilising or RunningOnUpdateHandlers, the latter exactly when propagation had completed and a handler panicked; in the former every read fails with CurrentlyStabilising, forever, whatever API calls follow, and writes only park values. Drain completeness before handlers is proved for debug builds (C13_partial_*, with a checked release-mode counterexample on an unreachable-looking state). Tied to /repo by enumerating a panic at every user-closure invocation of one or two stabilises per history (node function, fold, map_with_old, bind closure, cutoff function, edge callback, expert recompute, handler), followed by reads, stabilise, write, stabilise, drop of everything, all under catch_unwind; holds_C13 on the implementation's trace.",
     note=ENGINE_NOTE + " Which handlers had already run when the k-th one panics depends on HashMap order: notifications are not compared for fault variants.", ref="DESIGN.md §6 C13, App. F")
+CLAIMED["C15"] = dict(
+    technique="Lean 4 theorems (each operator's Mealy machine equals its definition for every sequence of sorted input maps, by induction with the C18 diff lemmas) + differential correspondence through the real engine on all three map types + Lean predicate using the proven spec functions",
+    text="Kernel-checked: for EVERY list of sorted input maps (insertion, deletion, value change, emptying, refilling, repeated equal inputs; no size bound) the literal transcriptions of the closures of incr_filter_mapi (hence incr_map/mapi/filter_map), incr_unordered_fold_with (any fold satisfying three stated laws, both values of revert-to-init, plain and custom update; a checked counterexample shows the commutation law is needed), incr_merge and incr_partition_mapi output exactly filterMapSpec / ufoldSpec / mergeSpec' / partitionSpec of the current input, and did_change=false only when the output is unchanged. The machines are the definitions the engine model runs (map_with_old nodes), so composition with the engine is by construction; 'across unobserved periods' is covered by the engine-level correspondence (the model recomputes operator nodes exactly when the implementation does). im_rc::OrdMap (insert/remove/diff) is library code: sorted-list semantics assumed, checked by correspondence.",
+    note=ENGINE_NOTE + " Conversion nodes V ↔ concrete map type around each operator exist on both sides.", ref="DESIGN.md §6 C15")
+CLAIMED["C17"] = dict(
+    technique="Lean 4 theorems (closed form of the user-function call list of each operator step in terms of the symmetric diff) + call-by-call differential correspondence + Lean predicate",
+    text="Kernel-checked for every step with a previous state: incr_filter_mapi calls the user function exactly for the Right/Unequal entries of the diff (never for removed keys), in ascending key order, at most once per key; incr_unordered_fold makes exactly one call per diff entry with role add/remove/update; incr_merge calls at most once per key of the merged diff streams and only for keys that differ in the left or right input; equal inputs cause no call; the initial/emptied branch processes every key once. Per-key operators (builder only for new keys, make_stale only for changed keys) are covered by correspondence: every call with key, role, arguments and result is compared as a sequence between model and implementation, and holds_C17 checks them against the differing keys.",
+    note=ENGINE_NOTE, ref="DESIGN.md §6 C17")
+CLAIMED["C14"] = dict(
+    technique="Lean 4 theorems (closed-form run equations of the expert API: add/remove dependency with swap-remove and duplicate children, make_stale, edge callbacks, fire-all on first recompute, observability change) + differential correspondence on scripted expert drivers + Lean predicate (dynamic sums from current dependencies)",
+    text="Partial proof, full differential check. Kernel-checked for EVERY model state (user-defined expert nodes): add_dependency on an unneeded node only records the edge (returns the fresh name, sets force_stale); remove_dependency is exactly swap-remove on the edge list with the index renaming done in one pass also when both edges point at ONE child (repaired D8), keeps edge symmetry for the remaining edges, puts the node in the heap, and decrements the invalid-children count iff the removed child is invalid (repaired D6); make_stale sets force_stale and queues iff necessary, after which the node is stale, and a recompute clears the flag (exactly one forced recompute); run_edge_callback does nothing while fire-all is pending and otherwise delivers the child's current value to the slot; on the first recompute after becoming observed again every callback edge whose child has a value has been delivered that value; observability_change(false) re-arms fire-all. NOT proved: add_dependency on a necessary node (link cascade), invalidate, whole-history equality with the expressed combinator — covered by correspondence (profile expert: join/bind patterns, add+remove by position, duplicates, make_stale, outside add_dependency, observer churn) and holds_C14 (value = sum over CURRENT dependencies of CURRENT child values / callback-delivered values; at most one recompute per stabilise; never invalid while all dependencies are valid).",
+    note=ENGINE_NOTE, ref="DESIGN.md §6 C14")
 ALL = ["C%02d" % i for i in range(1, 21)]
 NOT_YET = "no check registered at this commit: the model component for this property is still under construction (see DESIGN.md §9 order of work); nothing is claimed"
 
